@@ -64,6 +64,27 @@ func runC15(c *Ctx) {
 		if ps == nil {
 			continue
 		}
+		// an early return for slices of fewer than two elements is a no-op fast path: sorting them changes nothing.
+		// Such a path (no effect at all, one condition that bounds len(slice) by 1) is set aside.
+		if len(ps) == 2 {
+			var rest []*Path
+			lenS := ToPoly(&Term{Op: "builtin", Sym: "len", Args: []*Term{paramOf(fi, 0)}})
+			for _, p := range ps {
+				trivial := p.End == EndReturn && len(p.Conds) == 1 && len(p.Rets) == 0 &&
+					impliesNonPositive(p.Conds[0].Rel(), lenS.Add(polyConst(1), -1))
+				for i := range p.Events {
+					if p.Events[i].Name != "builtin.len" {
+						trivial = false
+					}
+				}
+				if !trivial {
+					rest = append(rest, p)
+				}
+			}
+			if len(rest) == 1 {
+				ps = rest
+			}
+		}
 		if len(ps) != 1 {
 			R.Unproven(rule, fi.Name, "call", c.pos(fi), fmt.Sprintf("%d paths; expected the single delegation to package sort", len(ps)))
 			continue
@@ -81,6 +102,8 @@ func runC15(c *Ctx) {
 				revCalls = append(revCalls, e)
 			case e.Kind == "mkclosure":
 				// a comparison closure wrapped around less: examined below
+			case e.Kind == "call" && e.Name == "builtin.len":
+				// pure
 			default:
 				other = append(other, e)
 			}
